@@ -198,6 +198,8 @@ class W:
         self.mnet.add_node(self.remote)
         self.local = canopen.LocalNode(self.nid, build_od())
         self.snet.add_node(self.local)
+        # receive timestamps as the driver delivers them: exact, from a coarse clock, or always 0.0 (a driver without timestamps)
+        self.ch.ts_quantum = (0, 0, 0, 0, 1 * MS, -1)[ctx.choice(6, "tsq")]
 
 
 def configure(ctx, w, pair, cob_id, layout, enabled=True, rtr=True, via_save=False):
@@ -310,7 +312,10 @@ def transmit_and_check(ctx, w, pairs, pair, what, periodic=False):
         b = before[id(p)]
         changed = (bytes(p.cons.data), p.cons.timestamp) != b[:2] or len(p.cb_log) != b[2]
         if p in exp:
-            if bytes(p.cons.data) != fr.data or p.cons.timestamp is None or p.cons.timestamp == b[1]:
+            stamp = (w.mbus if p.cons_bus == "master" else w.sbus).rx_stamp.get(fr.can_id)
+            if stamp is not None and p.cons.timestamp != stamp:
+                ctx.violation("C15/consumer-timestamp", "%s: consumer %s%d has timestamp %r, the frame was received with timestamp %r" % (what, p.direction, p.number, p.cons.timestamp, stamp))
+            if bytes(p.cons.data) != fr.data or p.cons.timestamp is None or (p.cons.timestamp == b[1] and not w.ch.ts_quantum):
                 ctx.violation("C15/consumer-not-updated", "%s: consumer %s%d (COB-ID 0x%X, subscribed) holds data %s timestamp %r after frame %r" % (
                     what, p.direction, p.number, p.cons.cob_id, bytes(p.cons.data).hex(), p.cons.timestamp, fr))
             if p.cb_installed and len(p.cb_log) != b[2] + len(frames):
